@@ -23,7 +23,10 @@ RULE = (
 	'and a sample of the rest), random canonical trees over keys of 4, 6 and 64 nibbles (thorough: up to 6 keys), random non-canonical trees; '
 	'for each tree every present key, every absent key of the universe, every truncation of the honest proof and single corruptions (state '
 	'hash, roots, node path bit, link bit, leaf value, key nibble, tested value, dropped node), the wire form, its truncations and byte '
-	'replacements, random malformed proofs and buffers. The verdict expected is the one the tree implies (positions known by construction, '
+	'replacements, random malformed proofs and buffers. Subcache roots: 1-9 per proof, zero roots (empty subcaches) often several times, '
+	'the tree root at one to three positions, equal non-zero roots; the state hash is taken over the list as given, forged ones over the '
+	'de-duplicated / sorted / reversed / shuffled / truncated / extended list (or those lists under the genuine state hash) must be '
+	'STATE_HASH_DOES_NOT_MATCH_ROOTS. The verdict expected is the one the tree implies (positions known by construction, '
 	'never found by hash search). Transactions: every descriptor of '
 	'/repo/sdk/python/examples/descriptors (Symbol and NEM) plus aggregates (complete/bonded, v1-v2, 0-3 cosignatures, 0-5 embedded), '
 	'signed; single-bit flips at every field class (covered/uncovered) of the serialized bytes. Histories (state carried between calls): '
@@ -666,6 +669,31 @@ def gen_trees(ctx):
 		yield 'non-canonical', tree, sorted(tries)
 
 
+def gen_roots(rng, root_hash):
+	"""subcache merkle roots as a block header carries them: 1-9 hashes, empty subcaches as zero hashes (often several), the proven
+	tree's root at one or several positions, equal non-zero roots"""
+	count = rng.choice([1, 2, 3, 4, 5, 6, 7, 8, 9, 9])
+	pool = [rng.bytes_(32) for _ in range(rng.choice([1, 2, 3]))]
+	zero_rate = rng.choice([0.0, 0.3, 0.6])
+	roots = [bytes(32) if rng.random() < zero_rate else rng.choice(pool) if rng.random() < 0.5 else rng.bytes_(32) for _ in range(count)]
+	for _ in range(rng.choice([1, 1, 1, 2, 3])):
+		roots[rng.randrange(count)] = root_hash
+	return roots
+
+
+def forged_root_lists(rng, roots):
+	"""(label, other list) pairs: the same roots de-duplicated, re-ordered, truncated, with one more zero root"""
+	out = [('deduplicated', list(dict.fromkeys(roots))), ('sorted', sorted(roots)), ('reversed', roots[::-1]), ('truncated', roots[:-1]), ('extra-zero', roots + [bytes(32)])]
+	shuffled = list(roots)
+	rng.shuffle(shuffled)
+	out.append(('shuffled', shuffled))
+	if len(roots) > 1:
+		spot = rng.randrange(len(roots))
+		out.append(('one-dropped', roots[:spot] + roots[spot + 1:]))
+		out.append(('one-doubled', roots[:spot] + [roots[spot]] + roots[spot:]))
+	return [(label, other) for label, other in out if b''.join(other) != b''.join(roots)]
+
+
 def run_patricia(ctx):
 	# pylint: disable=too-many-locals,too-many-statements,too-many-branches
 	from symbolchain.CryptoTypes import Hash256
@@ -738,7 +766,6 @@ def run_patricia(ctx):
 			'compact path encoding differs from leaf/odd flags + packed nibbles')
 		ctx.count('patricia:encode_path:' + ('odd' if size % 2 else 'even') + (':leaf' if is_leaf else ':branch'))
 
-	other_roots = [rng.bytes_(32) for _ in range(3)]
 	tree_count = 0
 	for label, tree, universe in gen_trees(ctx):
 		tree_count += 1
@@ -754,9 +781,11 @@ def run_patricia(ctx):
 				ctx.count(f'patricia:non-empty-branch-path-above-last-node:{label}')
 			key_bytes = pack(key)
 			nodes = [o_node(sub) for sub in visited]
-			position = rng.randrange(4)
-			roots = other_roots[:position] + [root_hash] + other_roots[position:]
-			state_hash = sha3(b''.join(roots))
+			roots = gen_roots(rng, root_hash)
+			state_hash = sha3(b''.join(roots))  # over the list as given: in order, with multiplicity
+			ctx.count(f'patricia:roots:count-{len(roots)}')
+			if len(set(roots)) < len(roots):
+				ctx.count('patricia:roots:repeated-' + ('zero' if roots.count(bytes(32)) > 1 else 'tree-root' if roots.count(root_hash) > 1 else 'other'))
 			last = visited[-1]
 			leaf_value = last[2] if 'L' == last[0] else rng.bytes_(32)
 			expected = o_implied(visited, trace, key, leaf_value)
@@ -787,13 +816,28 @@ def run_patricia(ctx):
 					ctx.count(f'patricia:branch-path-above-last-node:truncated:{answer}')
 			# single corruptions
 			for _ in range(ctx.scale(3, 8)):
-				corruption = rng.choice(['state-hash', 'roots', 'node-path', 'link', 'leaf-value', 'key', 'drop-middle', 'drop-first'])
-				if 'state-hash' == corruption:
+				corruption = rng.choice(['state-hash', 'forged-state-hash', 'forged-state-hash', 'roots', 'node-path', 'link', 'leaf-value', 'key', 'drop-middle', 'drop-first'])
+				if 'forged-state-hash' == corruption:
+					# a state hash derived from another arrangement of the same roots (or the roots re-arranged under the genuine state hash)
+					forged = forged_root_lists(rng, roots)
+					if not forged:
+						continue
+					how, other = rng.choice(forged)
+					if rng.random() < 0.5:
+						check(
+							f'{label}:state-hash-over-{how}-roots', key_bytes, leaf_value, nodes, sha3(b''.join(other)), roots,
+							VERDICTS['STATE_HASH_DOES_NOT_MATCH_ROOTS'], f'state hash computed over the {how} roots, not over the roots as given')
+					elif other:
+						check(
+							f'{label}:{how}-roots-under-genuine-state-hash', key_bytes, leaf_value, nodes, state_hash, other,
+							VERDICTS['STATE_HASH_DOES_NOT_MATCH_ROOTS'], f'{how} roots presented under the genuine state hash')
+				elif 'state-hash' == corruption:
 					check(
 						f'{label}:bad-state-hash', key_bytes, leaf_value, nodes, flip(state_hash, rng.randrange(256)), roots,
 						VERDICTS['STATE_HASH_DOES_NOT_MATCH_ROOTS'], 'state hash not derived from the roots')
 				elif 'roots' == corruption:
-					bad_roots = other_roots[:position] + [flip(root_hash, rng.randrange(256))] + other_roots[position:]
+					bad_root = flip(root_hash, rng.randrange(256))
+					bad_roots = [bad_root if root == root_hash else root for root in roots]
 					check(
 						f'{label}:unanchored', key_bytes, leaf_value, nodes, sha3(b''.join(bad_roots)), bad_roots, VERDICTS['UNANCHORED_PATH_TREE'],
 						'tree root is not a subcache root')
@@ -883,8 +927,10 @@ def run_patricia(ctx):
 						links[rng.randrange(len(links))] = below
 					nodes[index] = (nodes[index][0], nodes[index][1], nodes[index][2], links)
 		first_hash = o_wire_hash(nodes[0]) if nodes else None
-		roots = [first_hash if first_hash is not None and rng.random() < 0.9 else rng.bytes_(32)]
-		state_hash = sha3(b''.join(roots))
+		roots = gen_roots(rng, first_hash if first_hash is not None and rng.random() < 0.9 else rng.bytes_(32))
+		if rng.random() < 0.1:
+			roots = []
+		state_hash = sha3(b''.join(roots if rng.random() < 0.8 else list(dict.fromkeys(roots))))
 		key = rng.bytes_(rng.choice([0, 1, 2, 3, 32]))
 		if nodes and rng.random() < 0.6:  # a key that follows the nodes' own paths
 			guess = []
@@ -1379,7 +1425,6 @@ def run_histories(ctx):
 	ops = Ops(ctx)
 
 	# Patricia nodes: use (prove / hash), edit one node in place, use again
-	other_roots = [rng.bytes_(32) for _ in range(2)]
 	for _ in range(ctx.scale(250, 4000)):
 		length = rng.choice([4, 6, 64])
 		letters = rng.sample(range(16), rng.choice([2, 3, 16]))
@@ -1390,7 +1435,7 @@ def run_histories(ctx):
 		visited, steps_taken = o_lookup(tree, key)
 		nodes = [o_node(sub) for sub in visited]
 		root_hash = o_tree_hash(tree)
-		roots = [root_hash] + other_roots if rng.random() < 0.5 else other_roots[:1] + [root_hash]
+		roots = gen_roots(rng, root_hash)
 		state_hash = sha3(b''.join(roots))
 		last = visited[-1]
 		value = last[2] if 'L' == last[0] else rng.bytes_(32)
@@ -1741,7 +1786,7 @@ MANIFEST = {
 		'in-place loop of MerkleHashBuilder.final, with its num_remaining_hashes += 1 step, equals the textbook root for every leaf list, by '
 		'induction on the loop invariant; both loops are defined by well-founded recursion on the measures n - i and n), root_empty, root_single, '
 		'embedded_hash_def, prove_complete, audit_path_shape, prove_sound_or_collision, prove_iff_honest_or_collision; Patricia: encode_path_def, '
-		'deserialize_serialize, deserialize_guard_unreachable and the verdict theorems verdict_state_hash, verdict_unanchored, '
+		'deserialize_serialize, deserialize_guard_unreachable and the verdict theorems verdict_state_hash, state_hash_counts_multiplicity, verdict_unanchored, '
 		'verdict_leaf_value_mismatch, verdict_wrong_value, verdict_unlinked, verdict_wrong_key, verdict_inconclusive (full), walk_spells_trace and '
 		'verdict_positive_partial, verdict_dead_end_partial, verdict_truncated_partial (with the explicit hypothesis IndexOK), '
 		'branch_path_before_link_nibble (a branch with a non-empty path above the leaf: the order repaired by e003475f9), plus '
